@@ -20,6 +20,9 @@ CHECKS['C02'] = dict(level='model_checking', design='1/C02',
 CHECKS['C16'] = dict(level='model_checking', design='1/C16',
      text='StreamBuffer operator<< (all scalar overloads, Array<T>, strings) and StreamBufferReader read2/4/8 are executed symbolically for every bit pattern of every scalar type, all three byte orders and a switch at any point, against a shift/mask reference serializer, byte for byte; read-back equality of bit patterns.',
      note='Bounds in evidence (sequence length <= 3). Little-endian target. Trusted: z3, engine IR semantics.')
+CHECKS['C03'] = dict(level='model_checking', design='1/C03',
+     text='String construction, substring/substr, search, prefix/suffix, comparison, split/join, replace, in-place mutation histories (incl. self-append/self-assignment) and integer<->text conversions are executed symbolically on the real String.cpp/String.h for strings whose lengths straddle the 15/16, 20/24 and 1 KiB boundaries with fully symbolic tail bytes, against byte-array reference functions; length()==strlen after every step; all memory accesses solver-checked.',
+     note='Bounds in evidence; integer round trips are decided for every value with <= 4 (thorough 5) digits and near every power of ten / type limit only. printf family = env/vlibc.c mini implementation. Trusted: z3, engine IR semantics.')
 NA = {
 }
 ALL = ['C%02d' % i for i in range(1, 21)]
